@@ -49,6 +49,7 @@ def corpus(snapshot):
     add("Dimension.scale/fresh",
         [{"op": "q_new", "m": ["float", "273.15"], "u": ["u", a], "how": "mul"}],
         {"op": "scale", "dim": ["d", "length"], "zero": ["r", 0], "name": "zzcsa", "symbol": "zzcsa"})
+    add("Dimension.define/fresh", [], {"op": "dim_define", "name": "zzcdd", "symbol": "ZZD"})
     # failing (F1) calls under F2 as well: the validation path itself is interrupted
     add("Unit.alias/dup-symbol", [], {"op": "alias", "unit": ["u", named], "name": "zzcui", "symbol": "1", "fault": "dup_symbol"})
     add("Dimension.unit/space", [], {"op": "dim_unit", "dim": ["d", "length"], "name": "zzcuj", "symbol": "zz cuj", "fault": "space"})
